@@ -51,11 +51,13 @@ fn main() {
         "hash-rand" => hashes::drive_hash_histories(&mut *out, seed, thorough),
         "c17" => c17::drive_c17(&mut *out, seed, thorough, arg(&args, "--family").expect("--family")),
         "c17-stream" => c17::drive_c17_stream(&mut *out, arg(&args, "--which").expect("--which")),
+        "c17-big" => c17::drive_c17_big(&mut *out, arg(&args, "--which").expect("--which")),
         "c16" => align::parent(&mut *out, seed, thorough, arg(&args, "--force").map(|f| f.parse().unwrap()).unwrap_or(0), arg(&args, "--only")),
         "c16-child" => align::child(&mut *out, arg(&args, "--group").expect("--group"), seed, thorough),
         "c18-interleave" => conc::drive_interleave(&mut *out, seed, thorough),
         "c18-schedules" => conc::run_sys_schedules(&mut *out, arg(&args, "--script").expect("--script"), seed),
         "c18-cold" => conc::drive_cold(&mut *out, arg(&args, "--threads").map(|t| t.parse().unwrap()).unwrap_or(8), seed),
+        "tf-vectors" => tf::drive_tf_vectors(&mut *out, arg(&args, "--script").expect("--script"), arg(&args, "--cfg").unwrap_or("?")),
         "tf" => tf::drive_tf(&mut *out, seed, thorough, arg(&args, "--cfg").unwrap_or("?")),
         "stream-end64" => chacha::drive_end64(&mut *out, seed, thorough),
         "stream-rand" => chacha::drive_histories(&mut *out, seed, thorough, true),
